@@ -1,6 +1,5 @@
 import Nv.OracleIO
-import Nv.Model.C17
-import Nv.Gen.C17
+import Nv.Model.C17Glue
 /-!
 oracle_c17 — line protocol. A key token is `<ty>:<value>:<hash>` with `ty` one of
 u8 i8 i16 u16 i32 u32 i64 u64 int uint hit (decimal value) | str bytes bs (hex bytes) | other (value 0),
@@ -16,23 +15,6 @@ and `hash` = the key's xxhash as computed by the real package (xxhash itself is 
 Routing uses the regenerated kernels (`Nv.Gen.C17`): boundaries, clamp, SimpleIndex arms and tail.
 -/
 open Nv Nv.C17
-
-/-- boundaries through the regenerated kernels -/
-def genNps (n i : Nat) : Nat :=
-  if Nv.Gen.C17.cfg.lastForcedMax && decide (i + 1 = n) then M64
-  else (Nv.Gen.C17.npsAt (Nv.Gen.C17.npsY (BitVec.ofNat 64 n)) (BitVec.ofNat 64 i) (BitVec.ofNat 64 n)).toNat
-
-def genSearchIndex (n x : Nat) : Nat :=
-  let i := bsearch (fun i => holds Nv.Gen.C17.cfg.searchPred (genNps n i) x) n 0 n
-  (Nv.Gen.C17.searchClamp (BitVec.ofNat 64 i) (BitVec.ofNat 64 n)).toNat
-
-def genXHash (n : Nat) (k : Key) : Out :=
-  if k.hashable then .idx (genSearchIndex n k.hash) else .panic
-
-def genSimple (n : Nat) (k : Key) : Out :=
-  match Nv.Gen.C17.simpleArm k.ty k.bits with
-  | some it => .idx (Nv.Gen.C17.simpleTail it (BitVec.ofNat 64 n)).toNat
-  | none => genXHash n k
 
 def parseTy (s : String) : Option (KType × Nat × Bool) :=   -- type, width, signed
   match s with
